@@ -81,8 +81,9 @@ func (t *tracePager) Page(n int, pagesize int) ([]byte, error) {
 				for i := half; i < len(buf); i++ {
 					buf[i] = 0
 				}
+				// exactly what the file pager reports for a page cut short by the end of the file
 				t.add(event{"p", n, "short read"})
-				return buf, io.ErrUnexpectedEOF
+				return buf, io.EOF
 			}
 		}
 		t.add(event{"p", n, "injected"})
